@@ -229,6 +229,13 @@ def gateway(rep, F, rule='GATEWAY'):
                     # <BigDecimal as FromStr>::from_str / str::parse::<BigDecimal> resolve to local bodies and are followed instead
                     if F.call_targets(f, t):
                         continue
+                    # the decimal grammar itself living in this body (the shared parser spliced in): the text handed over is what
+                    # the exponent / decimal-point splitting left, and the radix is the literal 10
+                    lit10 = any(a.get('k') == 'const' and a.get('int') == '10' for a in t['args'])
+                    splits = sum(1 for _, t2 in f.calls() if re.search(r'::find$', (t2['callee'].get('def') or '')))
+                    exp_parser = re.search(r'FromStr for i(64|128)>::from_str$|str::parse$', res) is not None
+                    if (lit10 or exp_parser) and splits >= 2:
+                        continue
                     hits.append((f, t, res))
         key = e.key + ':only-through-from_str_radix'
         if hits:
